@@ -2,10 +2,16 @@
    Proved for the client model: the exact semantics of every timer expiry (handshake resend budget, active
    deadline, closing budget, closed linger), that every frame of the connection handled while established moves
    the deadline a full active_timeout ahead, and that the first deadline counts from the completion of the
-   handshake. The server's timers, keepalive sufficiency and "reported within one step" over whole histories are
-   decided on the implementation by the timers / lifecycle streams with the timeout oracle and through the
-   correspondence under the virtual clock (partial). *)
-From UF Require Import Consts Base Frame Sender HalfConn Endpoint EndpointProofs.
+   handshake; and over whole histories of a client (TimeoutHistory.v): for every sequence of steps with a
+   non-decreasing clock, flushes, sends and disconnect calls, Error(Timeout) is reported (a) from the handshake no
+   earlier than 22 s after connect() and after exactly ten resends, (b) from an established connection only if
+   every step that brought a data / sync / ack frame — and the step that reported Connect — lies at least
+   active_timeout_ms back, the deadline being exactly active_timeout_ms after a step in which a frame from the
+   server arrived and a silent step at or past it reporting the timeout, (c) while disconnecting no earlier than
+   22 s after the step that first sent the Disconnect request, and (d) in no other phase. The server's timers and
+   keepalive sufficiency over whole histories are decided on the implementation by the timers / lifecycle streams
+   with the timeout oracle and through the correspondence under the virtual clock (partial). *)
+From UF Require Import Consts Base Frame Codec Sender HalfConn Endpoint EndpointProofs EndpointTotal HandshakeHistory TimeoutHistory.
 
 Theorem C10_client_timer_semantics :
   forall c a now,
@@ -48,3 +54,89 @@ Theorem C10_handshake_budget_constants :
 Proof. repeat split; reflexivity. Qed.
 
 Check C10_client_timer_semantics.
+
+(* ---------- whole histories of a client (TimeoutHistory.v) ---------- *)
+Local Open Scope N_scope.
+
+Theorem C10_client_handshake_timeout_history :
+  forall ec nonce t0 seed ops, clock_mono t0 ops ->
+  forall vnow inbox c' evs sends, last_clock t0 ops <= vnow ->
+    let st := fold_left cl_run_op ops (cl_start ec nonce t0 seed) in
+    client_step (fst st) vnow inbox = Ok (c', evs, sends) ->
+    forall ln rq rt rc s0, cl_state_ (fst st) = ClPending ln rq rt rc s0 -> In (EvError 0 0) evs -> ~ In (EvConnect 0) evs ->
+      22000 <= vnow - t0 /\ sent_total (snd st) = 10 /\ Forall (fun e => ~ In (EvConnect 0) (en_events e)) (snd st).
+Proof. intros ec nonce t0 seed ops Hc vnow inbox c' evs sends Hn st. exact (handshake_timeout_history ec nonce t0 seed ops Hc vnow inbox c' evs sends Hn). Qed.
+Print Assumptions C10_client_handshake_timeout_history.
+
+Theorem C10_client_active_timeout_history :
+  forall ec nonce t0 seed ops, clock_mono t0 ops ->
+  forall vnow inbox c' evs sends, last_clock t0 ops <= vnow ->
+    let st := fold_left cl_run_op ops (cl_start ec nonce t0 seed) in
+    client_step (fst st) vnow inbox = Ok (c', evs, sends) ->
+    forall ln rn h t1 to d, cl_state_ (fst st) = ClActive ln rn h t1 to d -> In (EvError 0 0) evs ->
+    forall e, In e (snd st ++ [mkEnt (vnow - t0) inbox evs sends (phase c')]) ->
+      has_hc (en_inbox e) \/ In (EvConnect 0) (en_events e) -> en_now e + ec_active_timeout ec <= vnow - t0.
+Proof. intros ec nonce t0 seed ops Hc vnow inbox c' evs sends Hn st. exact (active_timeout_history ec nonce t0 seed ops Hc vnow inbox c' evs sends Hn). Qed.
+Print Assumptions C10_client_active_timeout_history.
+
+Theorem C10_client_active_deadline_exact :
+  forall ec nonce t0 seed ops, clock_mono t0 ops ->
+  forall vnow inbox c' evs sends, last_clock t0 ops <= vnow ->
+    let st := fold_left cl_run_op ops (cl_start ec nonce t0 seed) in
+    client_step (fst st) vnow inbox = Ok (c', evs, sends) ->
+    forall ln rn h t1 to d, cl_state_ (fst st) = ClActive ln rn h t1 to d ->
+    exists e, In e (snd st) /\ to = en_now e + ec_active_timeout ec /\ refreshing ln e /\
+              (forall e', In e' (snd st) -> has_hc (en_inbox e') \/ In (EvConnect 0) (en_events e') -> en_now e' <= en_now e) /\
+              (inbox = [] -> to <= vnow - t0 -> In (EvError 0 0) evs /\ cl_state_ c' = ClFin).
+Proof. intros ec nonce t0 seed ops Hc vnow inbox c' evs sends Hn st. exact (active_deadline_exact ec nonce t0 seed ops Hc vnow inbox c' evs sends Hn). Qed.
+Print Assumptions C10_client_active_deadline_exact.
+
+Theorem C10_client_closing_timeout_history :
+  forall ec nonce t0 seed ops, clock_mono t0 ops ->
+  forall vnow inbox c' evs sends, last_clock t0 ops <= vnow ->
+    let st := fold_left cl_run_op ops (cl_start ec nonce t0 seed) in
+    client_step (fst st) vnow inbox = Ok (c', evs, sends) ->
+    forall rq rt rc, cl_state_ (fst st) = ClClosing rq rt rc -> In (EvError 0 0) evs ->
+    exists e, first_closing (snd st) = Some e /\ In write_disconnect (en_sends e) /\ en_now e + 22000 <= vnow - t0.
+Proof. intros ec nonce t0 seed ops Hc vnow inbox c' evs sends Hn st. exact (closing_timeout_history ec nonce t0 seed ops Hc vnow inbox c' evs sends Hn). Qed.
+Print Assumptions C10_client_closing_timeout_history.
+
+Theorem C10_client_no_other_timeout :
+  forall ec nonce t0 seed ops vnow inbox c' evs sends,
+    let st := fold_left cl_run_op ops (cl_start ec nonce t0 seed) in
+    client_step (fst st) vnow inbox = Ok (c', evs, sends) -> In (EvError 0 0) evs -> phase (fst st) <= 2.
+Proof. intros ec nonce t0 seed ops vnow inbox c' evs sends st. exact (no_other_timeout ec nonce t0 seed ops vnow inbox c' evs sends). Qed.
+
+(* non-vacuity: concrete histories in which each kind of timeout is reported *)
+Definition ex_ec := mkEpConfig 2000000 2000000 1000000 1000000 false 0 3000.
+Definition ex_silence := map (fun k => ClStep (100 + 2000 * k) []) [1; 2; 3; 4; 5; 6; 7; 8; 9; 10].
+
+Example C10_handshake_timeout_happens :
+  let st := fold_left cl_run_op ex_silence (cl_start ex_ec 5 100 1) in
+  clock_mono 100 ex_silence /\ phase (fst st) = 0 /\
+  match client_step (fst st) 22100 [] with Ok (_, evs, _) => evs = [EvError 0 0] | _ => False end.
+Proof. vm_compute. intuition discriminate. Qed.
+
+Definition ex_synack := write_handshake_syn_ack 5 7 2000000 1000000 1000000.
+Definition ex_connected := [ClStep 150 [ex_synack]; ClStep 1000 []].
+
+Example C10_active_timeout_happens :
+  let st := fold_left cl_run_op ex_connected (cl_start ex_ec 5 100 1) in
+  clock_mono 100 ex_connected /\ phase (fst st) = 1 /\
+  match client_step (fst st) 3150 [] with Ok (c', evs, _) => In (EvError 0 0) evs /\ phase c' = 4 | _ => False end /\
+  match client_step (fst st) 3149 [] with Ok (c', evs, _) => ~ In (EvError 0 0) evs /\ phase c' = 1 | _ => False end.
+Proof. vm_compute. intuition discriminate. Qed.
+
+Definition ex_closing := [ClStep 150 [ex_synack]; ClDisconnect true; ClStep 1000 []] ++ map (fun k => ClStep (1000 + 2000 * k) []) [1; 2; 3; 4; 5; 6; 7; 8; 9; 10].
+
+Example C10_closing_timeout_happens :
+  let st := fold_left cl_run_op ex_closing (cl_start ex_ec 5 100 1) in
+  clock_mono 100 ex_closing /\ phase (fst st) = 2 /\
+  match client_step (fst st) 23000 [] with Ok (c', evs, _) => evs = [EvError 0 0] | _ => False end /\
+  match client_step (fst st) 22999 [] with Ok (c', evs, _) => evs = [] | _ => False end.
+Proof. vm_compute. intuition discriminate. Qed.
+
+Check C10_client_handshake_timeout_history.
+Check C10_client_active_timeout_history.
+Check C10_client_active_deadline_exact.
+Check C10_client_closing_timeout_history.
